@@ -430,7 +430,7 @@ func genC05(c *runCfg) error {
 		g.w("func VH_C05_dec_%s() {\n", m.Message)
 		g.w("\tn := vrt.Choose(\"n\", 0, %d)\n\tin := vrt.Bytes(\"in\", n)\n", h+mandMin(m)+2)
 		g.w("\tif n > 0 {\n\t\tvrt.Assume(in[0] == %s)\n\t}\n\tif n > %d {\n\t\tvrt.Assume(in[%d] == %d)\n\t}\n", epd, h-1, h-1, *m.MsgType)
-		g.w("\tmsg := NewMessage()\n\tvar err error\n\tif vrt.Bool(\"viaPlain\") {\n\t\terr = msg.PlainNasDecode(&in)\n\t} else {\n\t\terr = msg.%s(&in)\n\t}\n", entry)
+		g.w("\tmsg := zzC05receiver()\n\tvar err error\n\tif vrt.Bool(\"viaPlain\") {\n\t\terr = msg.PlainNasDecode(&in)\n\t} else {\n\t\terr = msg.%s(&in)\n\t}\n", entry)
 		g.w("\tif err == nil {\n\t\tvrt.Reach(\"%s accepted\")\n\t\tzzC05post%s(msg, in)\n\t\tvrt.Assert(msg.%sMessage.%s != nil, \"%s: the body named by the message type is populated\")\n\t}\n}\n\n", m.Message, F, F, m.Message, m.Message)
 	}
 	g.w(`func zzC05postGmm(msg *Message, in []byte) {
@@ -456,10 +456,18 @@ func zzC05postGsm(msg *Message, in []byte) {
 }
 
 // all (discriminator, type) pairs on short inputs through the discriminator-dispatched entry point
+// zzC05receiver: the Message decoded into. Its outer security-header fields (filled by callers from the security
+// protected envelope, never by the decoders) are arbitrary: routing depends on the input octets only.
+func zzC05receiver() *Message {
+	msg := NewMessage()
+	msg.SecurityHeader = SecurityHeader{ProtocolDiscriminator: vrt.U8("rcvPD"), SecurityHeaderType: vrt.U8("rcvSHT"), MessageAuthenticationCode: vrt.U32("rcvMAC"), SequenceNumber: vrt.U8("rcvSQN")}
+	return msg
+}
+
 func VH_C05_dec_any() {
 	n := vrt.Choose("n", 0, 5)
 	in := vrt.Bytes("in", n)
-	msg := NewMessage()
+	msg := zzC05receiver()
 	err := msg.PlainNasDecode(&in)
 	if err == nil {
 		vrt.Assert(n > 0 && (in[0] == 0x7e || in[0] == 0x2e), "only the two 5GS discriminators are accepted")
@@ -487,7 +495,7 @@ func VH_C05_dec_mustreject() {
 		bad = true
 	}
 	vrt.Assume(bad)
-	msg := NewMessage()
+	msg := zzC05receiver()
 	vrt.Assert(msg.PlainNasDecode(&in) != nil, "unknown discriminator / unknown message type / shorter than a header is rejected (PlainNasDecode)")
 	if n >= 1 && in[0] == 0x7e {
 		m2 := NewMessage()
